@@ -360,7 +360,7 @@ Qed.
 Lemma adv_spec_wf n k : spec_wf n (adv_spec k) = true.
 Proof.
   assert (G : forall conds, spec_wf n (get_input_screen_spec conds) = true).
-  { intros conds. unfold spec_wf, get_input_screen_spec. cbn [sc_refresh sc_show sc_closed sc_input sc_input_default forallb fst andb].
+  { intros conds. unfold spec_wf, get_input_screen_spec. cbn [sc_refresh sc_show sc_closed sc_input sc_input_default sc_custom sc_setup_cmds forallb fst andb].
     rewrite andb_true_r. induction (flat_map cond_keys conds) as [|x l IH]; [reflexivity|].
     cbn [map forallb fst snd andb]. exact IH. }
   destruct k; try reflexivity; apply G.
@@ -384,7 +384,7 @@ Qed.
 
 Lemma spec_wf_mono n m sp : n <= m -> spec_wf n sp = true -> spec_wf m sp = true.
 Proof.
-  intros Hnm. unfold spec_wf. rewrite !andb_true_iff. intros [[[[[H1 H2] H3] H4] H5] H6].
+  intros Hnm. unfold spec_wf. rewrite !andb_true_iff. intros [[[[[[H1 H2] H3] H4] H5] H6] H7].
   repeat split; try (eapply cmds_wf_mono; eassumption).
   - apply forallb_forall. intros kv Hkv. rewrite forallb_forall in H4. eapply cmds_wf_mono; [exact Hnm|]. apply H4. exact Hkv.
   - apply forallb_forall. intros l Hl. rewrite forallb_forall in H6. eapply cmds_wf_mono; [exact Hnm|]. apply H6. exact Hl.
@@ -418,16 +418,36 @@ Proof.
   - apply forallb_forall. intros a Ha. rewrite forallb_forall in H3. eapply saction_wf_mono; [|apply H3; exact Ha]. lia.
 Qed.
 
+(* the stock dialogs' setup() does nothing of its own: only the application's own screens matter for the hypothesis
+   about setup() with commands *)
+Lemma adv_spec_setup_plain k : sc_setup_cmds (adv_spec k) = [].
+Proof. destruct k; reflexivity. Qed.
+
+Lemma adv_failing_setup_plain specs own ks :
+  (forall n, specs n = nth n (own ++ map adv_spec ks) default_spec) ->
+  (forall sp, In sp own -> In false (sc_setup sp) -> sc_setup_cmds sp = []) ->
+  failing_setup_plain specs.
+Proof.
+  intros Hs Ho n Hf. rewrite Hs in *.
+  destruct (Nat.lt_ge_cases n (length (own ++ map adv_spec ks))) as [Hlt|Hge].
+  - pose proof (nth_In (own ++ map adv_spec ks) default_spec Hlt) as Hin. apply in_app_or in Hin as [Hin|Hin].
+    + apply Ho; assumption.
+    + apply in_map_iff in Hin. destruct Hin as [k [<- _]]. apply adv_spec_setup_plain.
+  - rewrite nth_overflow by exact Hge. reflexivity.
+Qed.
+
 (* ================================================================ the screen-layer theorems, instantiated *)
 Lemma adv_C04 specs own ks typed quit run_empty fuel acts :
+  failing_setup_plain specs ->
   (forall n, specs n = nth n (own ++ map adv_spec ks) default_spec) ->
   sok chk_C04 typed (rev (trace (snd (app_run_all specs (own ++ map adv_spec ks) typed quit run_empty fuel acts)))) = true.
-Proof. intros H. apply C04_honest_stack_proof. exact H. Qed.
+Proof. intros Hpl H. apply C04_honest_stack_proof; [exact Hpl | exact H]. Qed.
 
 Lemma adv_C08 specs own ks typed quit run_empty fuel acts :
+  failing_setup_plain specs ->
   (forall n, specs n = nth n (own ++ map adv_spec ks) default_spec) ->
   forallb (spec_wf (length own + length ks)) own = true ->
   match quit with Some q => q < length own + length ks | None => True end ->
   forallb (saction_wf (length own + length ks)) acts = true ->
   sok chk_C08 typed (rev (trace (snd (app_run_all specs (own ++ map adv_spec ks) typed quit run_empty fuel acts)))) = true.
-Proof. intros H Ho Hq Ha. apply C08_lifecycle_proof; [exact H|]. apply adv_wf_session; assumption. Qed.
+Proof. intros Hpl H Ho Hq Ha. apply C08_lifecycle_proof; [exact Hpl | exact H|]. apply adv_wf_session; assumption. Qed.
